@@ -215,6 +215,17 @@ impl<'h, O: OutputSink, H: HandlerTypes> HtmlRewriter<'h, O, H> {
         )
     }
 
+    /// Verification hook: real capacities, in bytes, of the two input-driven allocations the
+    /// limiter accounts for: `(parsing buffer, open-element stack)`.
+    #[cfg(feature = "_verif_hooks")]
+    #[must_use]
+    pub fn verif_real_capacity(&mut self) -> (usize, usize) {
+        (
+            self.stream.verif_buffer_capacity(),
+            self.stream.verif_controller().verif_stack_capacity_bytes(),
+        )
+    }
+
     /// Writes a chunk of input data to the rewriter.
     ///
     /// # Panics
